@@ -156,6 +156,12 @@ def run(repo, rep, tier):
               "attributes only (a nameless attribute-dictionary entry is "
               "skipped)", construct="attrs-named-only", where=L.where(sa))
     L.whitelist_rule(repo, rep, "R01.8", ("chameleon.tal",))
+    # the indentation a repeated element starts with is that of its own
+    # line (C08 owns the white-space rule); boolean attributes follow the
+    # set the template was given (C07 owns the defaults)
+    from . import c08 as _c08
+    L.borrow(repo, rep, "R01.4", "C08", _c08._whitespace, ("last-text",))
+    L.borrow(repo, rep, "R01.5", "C07", c07._defaults, ("html-defaults",))
     L.state_rule(repo, rep)
 
 
